@@ -428,6 +428,11 @@ fn apply_mutation(orig: &[u8], entries: &[PEntry], m: &Mutation) -> Vec<u8> {
     }
 }
 
+static SHARD: std::sync::atomic::AtomicU32 = std::sync::atomic::AtomicU32::new(0);
+fn big_ok_shard() -> u32 {
+    SHARD.load(std::sync::atomic::Ordering::Relaxed)
+}
+
 struct BigLock(i32);
 impl BigLock {
     /// serialises the few cases that make the loader allocate gigabytes (mutated length fields) across shard processes
@@ -514,7 +519,9 @@ async fn tamper_journal(orig: &[u8], enc: bool, thorough: bool, rng: &mut Rng, r
     let boundaries: Vec<usize> = entries.iter().map(|e| e.end).collect();
     // mutations of the two high bytes of a length field make the loader allocate (and zero) up to 4 GiB before it
     // notices the file is too short: only a bounded number of those is run per journal, one at a time across shards
-    let mut big_left: u32 = if thorough { 6 } else { 1 };
+    // (on a machine with few cores these allocations dominate everything else: only the first shard(s) run them)
+    let big_shard = if thorough { big_ok_shard() < 4 } else { big_ok_shard() == 0 };
+    let mut big_left: u32 = if !big_shard { 0 } else if thorough { 6 } else { 1 };
     for m in muts {
         let bytes = apply_mutation(orig, &entries, &m);
         if bytes == orig {
@@ -579,6 +586,7 @@ async fn tamper_journal(orig: &[u8], enc: bool, thorough: bool, rng: &mut Rng, r
 }
 
 pub async fn run(ctx: &Ctx, rep: &mut ShardReport) {
+    SHARD.store(ctx.shard, std::sync::atomic::Ordering::Relaxed);
     let cache = CacheMode::for_shard(ctx.shard);
     rep.process_cfg = cache.name().into();
     arm_sched(ctx.seed ^ 0xC11 ^ ((ctx.shard as u64) << 32));
